@@ -227,6 +227,48 @@ def run_interpolators(ctx):
                                 break
 
 
+def run_single_node_axis(ctx):
+    """Grids with an axis of a single node (a slice of a volume kept as an array with one more axis): at points whose coordinate
+    on that axis is the node, the value is the interpolation over the remaining axes - in particular node values are reproduced."""
+    rng = ctx.rng('single-node-axis')
+    idx = 70000
+    for nd, dt in itertools.product((2, 3), ('float64', 'complex128')):
+        for schemes in itertools.product(['nearest', 'linear'], repeat=nd):
+            for ax1 in range(nd):
+                idx += 1
+                if not ctx.mine(idx):
+                    continue
+                shape = tuple(1 if a == ax1 else int(rng.integers(2, 5)) for a in range(nd))
+                cvs = make_cvs(rng, tuple(max(k, 2) for k in shape), True)
+                cvs = [cv[:1] if a == ax1 else cv[:shape[a]] for a, cv in enumerate(cvs)]
+                f = rng.normal(size=shape).astype(dt)
+                if dt == 'complex128':
+                    f = f + 1j * rng.normal(size=shape)
+                mixed = len(set(schemes)) > 1
+                cfg = '%dd;single-node-axis;%s' % (nd, 'mixed' if mixed else schemes[0])
+                ctx.case('single-node-axis;%s;%d' % ('-'.join(schemes), ax1), (shape, dt))
+                ctx.ev('interpolation')
+                try:
+                    if not mixed:
+                        itp = (discr_utils.nearest_interpolator if schemes[0] == 'nearest' else discr_utils.linear_interpolator)(f, cvs)
+                        comp = schemes[0] + '_interpolator'
+                    else:
+                        itp = discr_utils.per_axis_interpolator(f, cvs, list(schemes))
+                        comp = 'per_axis_interpolator'
+                    rest = [a for a in range(nd) if a != ax1]
+                    fr = np.squeeze(f, axis=ax1)
+                    for kind in ('node', 'interior'):
+                        pt = [float(cvs[ax1][0]) if a == ax1 else (float(cvs[a][rng.integers(len(cvs[a]))]) if kind == 'node' else float(rng.uniform(cvs[a][0], cvs[a][-1])))
+                              for a in range(nd)]
+                        got = np.asarray(itp(np.array(pt).reshape(nd, 1))).ravel()[0]
+                        acc = ref_vals(fr, [cvs[a] for a in rest], [pt[a] for a in rest], tuple(schemes[a] for a in rest))
+                        if not any(abs(got - a_) <= 1e-12 * max(1.0, np.abs(f).max()) for a_ in acc):
+                            ctx.violation(comp, cfg + ';' + kind, 'value!=multilinear-model', point=pt, got=str(got), ref=str(acc[0]))
+                            break
+                except Exception as e:
+                    ctx.violation('interpolators', cfg, 'raises:' + type(e).__name__, message=str(e)[:200])
+
+
 def run_nonnumeric(ctx):
     """Integer and string values with nearest interpolation."""
     rng = ctx.rng('nonnumeric')
@@ -587,6 +629,7 @@ def run(ctx):
         cov.add(getattr(discr_utils, cname, None), cname)
     cov.arm()
     run_interpolators(ctx)
+    run_single_node_axis(ctx)
     run_sampling(ctx)
     run_resampling(ctx)
     run_lindeform_ops(ctx)
